@@ -458,7 +458,9 @@ the shape is claimed: usable under `in` and `len`), the conditional with branche
 predicate builtins `all none any one count` with a closure, member access `x.f` / `x?.f` on values of
 struct or pointer-to-struct type (name resolution of the current code, `cfg.dn = NDefects.asIs`; value typing
 `Conf`: every member the checker resolves can be fetched and conforms, so pointers typed as structs are
-not nil), and (`inFrag2 true`) calls of environment functions.  `typed2` is "every operand has a static type the construct's rule is sound for": scalar
+not nil), `map[string]interface{}` values (member, index, `in`, `len`; the result an `interface{}`, of
+which nothing is claimed but that the access does not fail), indexing a `[]interface{}`, `in` on structs,
+map literals, and (`inFrag2 true`) calls of environment functions.  `typed2` is "every operand has a static type the construct's rule is sound for": scalar
 operands for the scalar operators and the predicate's body, a slice of scalars (`[]int`, `[]string`, …)
 where a collection is expected, an integer (not `interface{}`) index.  This excludes, explicitly, the constructs
 behind the known findings: the loose index rule (index typed `interface{}`), `filter`/`map` with the static
@@ -767,6 +769,27 @@ example : inFrag2 false exprMembers = true ∧ typed2 (cfgWith4 .asIs) [] exprMe
     typed2 (cfgWith .asIs) [] (.prop {} (ident "MSI") "k" false) = false := by
   decide +kernel
 
+/-- `struct { MA map[string]interface{}; Anys []interface{}; St ZA; Str string }` -/
+def envTy5 : Ty := .named "main.E5" [] (.struct [fld "MA" (.map .string interfaceType), fld "Anys" (.slice interfaceType),
+  fld "St" tZA, fld "Str" .string])
+def cfgWith5 (dt : TDefects) : CheckCfg :=
+  { types := createTypesTable .asIs id { ty := some envTy5 }, strict := true, dt := dt }
+
+/-- `Str in MA and "X" in St and len({a: MA.k, "b": Anys[0], c: MA["k"]}) == len(MA)` -/
+def exprMaps : Node :=
+  .binary {} "and" (.binary {} "and" (.binary {} "in" (ident "Str") (ident "MA")) (.binary {} "in" (.str {} "X") (ident "St")))
+    (.binary {} "==" (.builtin {} "len" [.map {} [.pair {} (.str {} "a") (.prop {} (ident "MA") "k" false),
+        .pair {} (.str {} "b") (.index {} (ident "Anys") (.int {} 0)), .pair {} (.str {} "c") (.index {} (ident "MA") (.str {} "k"))]])
+      (.builtin {} "len" [ident "MA"]))
+
+example : inFrag2 false exprMaps = true ∧ typed2 (cfgWith5 .asIs) [] exprMaps = true ∧
+    (check (cfgWith5 .asIs) exprMaps).okType = some boolTy ∧
+    -- an interface-typed value under an operator stays outside; so does a member of a typed map (`MSI.k`: the
+    -- model's value universe yields nil, not the element's zero value, for a missing key)
+    typed2 (cfgWith5 .asIs) [] (.binary {} "+" (.index {} (ident "Anys") (.int {} 0)) (.int {} 1)) = false ∧
+    typed2 (cfgWith .asIs) [] (.index {} (ident "MSI") (.str {} "k")) = false := by
+  decide +kernel
+
 private theorem zaFields (name : String) :
     fieldTypeT .asIs (some tZA) name = if name = "X" then some tInt else if name = "Y" then some .string else none := by
   by_cases h1 : name = "X"
@@ -796,6 +819,7 @@ theorem struct_conforms_witness :
   | succ n =>
     have hV : vtyOf (some tZA) = some (.obj (some tZA)) := by decide +kernel
     simp only [Conf, hV]
+    refine ⟨⟨_, _, _, rfl⟩, ?_⟩
     intro name τ hf
     rw [zaFields] at hf
     by_cases h1 : name = "X"
